@@ -164,3 +164,49 @@ void wb_asan_ctxswitch(const void *p_abandoned, const void *p_new)
     (void)p_new;
 }
 #endif
+
+/* ---- M-local-pool: a stream-local memory pool (ABTI_xstream.mem_pool_stack / mem_pool_desc)
+ * is used without any synchronisation, so it must be used by one OS thread at a time, with a
+ * happens-before edge at every hand-over.  In the simulator two sim threads never interleave
+ * inside such an operation (it contains no scheduling point), so a foreign access would be
+ * harmless here and a data race in reality: it is reported as soon as it happens.
+ * Hand-overs that are ordered, and therefore accepted:
+ *   - the previous user has ended (stream joined; the pool is then used by whoever revives or
+ *     frees the stream);
+ *   - the new user was created after the previous user's last access (pthread_create: the
+ *     creator sets up the new stream's scheduler from the new stream's pool, then starts it).
+ * The two pools for external threads in ABTI_global are protected by spinlocks: exempt. ---- */
+#define WB_LP_N 128
+static struct {
+    const void *pool;
+    int owner;
+    uint64_t last;
+} wb_lp[WB_LP_N];
+static int wb_nlp;
+void wb_local_pool_access(const void *pool)
+{
+    ABTI_global *g = gp_ABTI_global;
+    if (g && (pool == (const void *)&g->mem_pool_stack_ext || pool == (const void *)&g->mem_pool_desc_ext))
+        return;
+    int cur = G.cur;
+    for (int i = 0; i < wb_nlp; i++)
+        if (wb_lp[i].pool == pool) {
+            int o = wb_lp[i].owner;
+            if (o != cur) {
+                int ended = G.T[o].state == ST_DONE || G.T[o].state == ST_FREE;
+                int created_later = G.T[cur].born >= wb_lp[i].last;
+                if (!ended && !created_later)
+                    sim_fail("M-local-pool:foreign-access",
+                             "the stream-local memory pool %p, last used by sim thread %d at step %lu, is accessed by sim thread %d (created at step %lu) while thread %d is alive: unsynchronised, a data race",
+                             pool, o, (unsigned long)wb_lp[i].last, cur, (unsigned long)G.T[cur].born, o);
+                wb_lp[i].owner = cur;
+            }
+            wb_lp[i].last = G.steps;
+            return;
+        }
+    if (wb_nlp < WB_LP_N) {
+        wb_lp[wb_nlp].pool = pool;
+        wb_lp[wb_nlp].owner = cur;
+        wb_lp[wb_nlp++].last = G.steps;
+    }
+}
